@@ -201,7 +201,8 @@ def rule_r3(facts, col):
                     e = body.rvalue_expr(s["rv"])
                     fields = s["rv"]["fields"]
                     li = fields.index("len") if "len" in fields else None
-                    maps = [t for bb, t in body.calls_to("circular_buffer::Map::new")]
+                    from .c18 import mapping_calls
+                    maps = [t for bb, t in mapping_calls(body)[0]]
                     key = "%s:Circ.len" % body.q
                     if li is None or not maps:
                         col.silent("C01.R3", key, body.where(b2), "shape not recognised")
@@ -229,7 +230,7 @@ def rule_r6(facts, col, rule_id="C01.R6"):
                 continue
             key = "%s:%s<capacity" % (body.q, fld)
             e = body.rvalue_expr(st["rv"])
-            p = peel(e, through_try=False)
+            p = peel(expand_local_call(facts, e), through_try=False)
             if p.k == "bin" and p.op == "Rem" and _is_capacity(p.b):
                 col.ok(rule_id, key, body.where(bb), "stored as (..) % capacity()")
                 continue
